@@ -80,4 +80,48 @@ PROPS = {
         "level_text": "Theorems (Props/C03.lean): composition/collection of events records exactly the non-no-op mechanisms in order (any nesting); over ℝ, for every n≥1, ε,δ>0 the recorded multiplier m(ε,δ) is ≤ the applied multiplier m(ε/n,δ/n) = σ/C; the even split of (ε,δ) over sums and between thresholding and aggregates adds up to the budget. The same budget definitions, instantiated on Float, reproduce the σ literals, the Gaussian entries and the EpsilonDelta entry of the real rewriting on generated queries; an implementation-side oracle re-derives the implied ε from σ/C and checks basic composition and the thresholding record.",
         "level_note": "Trusted: Lean kernel, Mathlib analysis; harness IR extraction. Not proved: that the classical calibration gives (ε,δ)-DP. Queries whose aggregates share a sum are budgeted conservatively by the code and are only checked by the oracle, not compared with the model.",
     },
+    "C06": {
+        "lean_modules": ["QrlewModel.Props.C06"],
+        "streams": [
+            {"name": "fnimg", "n_quick": 20000, "n_thorough": 1000000},
+            {"name": "fn", "n_quick": 120000, "n_thorough": 4000000, "compare": False, "min_per_proc": 2000},
+        ],
+        "rule": "fnimg: integer +, -, *, sum on generated interval sets (1-3 intervals, small values and i64 extremes) compared with the Lean corner model. "
+                "fn: every scalar function (86 symbols, cycled evenly), 18 aggregates over list types, and numeric expression trees (depth 1-3; 2-5 in thorough): "
+                "draw argument types (category-directed: numeric/int/bool/text/date-time/any, optional wrappers, value sets, multi-interval sets, extremes), draw a value in them (boundary-heavy), "
+                "evaluate, require the propagated range to exist and contain the result (floats: relative tolerance 1e-9); non-trivial = the value evaluated without error",
+        "trusted_base": COMMON_TRUST + ["membership modulo the library's embeddings (harness s_dtype::mem)", "IEEE rounding not modelled (tolerance 1e-9 on float results)"],
+        "assumptions": ["floats: only exact-arithmetic (integer) instances are proved; float/text/date functions are covered by the implementation-side oracle only", "chrono is an oracle for calendar functions"],
+        "technique": "Lean 4 proof (corner theorems for partitioned-monotone functions of arity 1 and 2 incl. capacity collapse; saturating integer +,-,*; integer sum) + model/implementation image correspondence + exhaustive-by-symbol soundness oracle on the implementation",
+        "level_text": "Theorems (Props/C06.lean): for any function that is monotone or antitone in each coordinate on each (convex) partition, any argument sets and any point in them, the value lies in the propagated range (hull of corner values per box, collected into an interval set of any capacity >= 2); instances: i64 saturating +, -, * with the partitions declared in function.rs; integer sum bounds; a kernel-checked counterexample for sum over a union of intervals. The model images equal the real super_image on generated sets; all ~100 functions/aggregates and expression trees are swept by the value-in-image oracle on the real code.",
+        "level_note": "Trusted: Lean kernel; harness. Modelled, not verified: float arithmetic (clamp, rounding), transcendental functions, text and calendar functions, Optional/Polymorphic/Case wrappers (oracle only).",
+    },
+    "C10": {
+        "lean_modules": ["QrlewModel.Props.C10"],
+        "streams": [
+            {"name": "filter", "n_quick": 40000, "n_thorough": 2000000},
+            {"name": "filterx", "n_quick": 60000, "n_thorough": 3000000, "compare": False},
+        ],
+        "rule": "filter: 1-3 integer columns (1-3 intervals each) x predicates of depth 1-3 (comparisons col/lit on either side and col/col, =, AND, OR, unsupported NOT NOT wrapper) x 6 rows drawn from the type; "
+                "filterx: columns of int/float/text/bool/date kinds incl. nullable, literals of mixed numeric kinds, IN lists, boolean columns as predicates, unsupported arithmetic shapes, 8 rows; non-trivial = the predicate narrowed the type",
+        "trusted_base": COMMON_TRUST + ["membership modulo the library's Integer->Float embedding (harness s_dtype::mem)", "Expr::value as the truth of the predicate on a row"],
+        "assumptions": ["strict and non-strict comparisons are narrowed identically by the code; the model uses the weaker (non-strict) reading", "only integer-column row types are modelled in Lean; other kinds are covered by the row oracle"],
+        "technique": "Lean 4 proof by induction on predicates (composition of the C11 lattice theorems and the C06 corner theorem) + model/implementation correspondence of DataType::filter + row-level oracle",
+        "level_text": "Theorem filter_sound (Props/C10.lean): for every row type with integer interval-set columns, every predicate (comparisons with columns/literals on either side, equalities, AND, OR, unsupported sub-terms; any nesting) and every row of the type on which the predicate holds, the row is in the narrowed type. The model's narrowed types equal those of the real DataType::filter on generated cases; a row oracle checks mixed-kind, nullable and IN-list predicates on the real code.",
+        "level_note": "Trusted: Lean kernel; harness. Modelled, not verified: float/text/date columns, optional stripping, IN lists, join ON narrowing per join kind (row oracle only).",
+    },
+    "C12": {
+        "lean_modules": ["QrlewModel.Props.C12"],
+        "streams": [
+            {"name": "ofint", "n_quick": 100000, "n_thorough": 5000000},
+            {"name": "inj", "n_quick": 60000, "n_thorough": 3000000, "compare": False},
+        ],
+        "rule": "ofint: i64 values (small, near powers of two 2^50..2^62 +- 4100, extremes, random 63-bit, half-way cases) -> `n as f64` vs the Lean ties-to-even model; non-trivial = |n| >= 2^53. "
+                "inj: source types (all scalar variants, optional, struct, list) x 9 target variants x two member values (neighbouring integers, sign-flipped floats): image membership, totality, value preservation, injectivity, round trip; non-trivial = the conversion is accepted",
+        "trusted_base": COMMON_TRUST + ["Rust `as` casts as the reference for i64<->f64"],
+        "assumptions": ["float -> text printing (Rust shortest representation) is trusted to be injective", "only the numeric conversions (bool/int/float) are modelled in Lean"],
+        "technique": "Lean 4 proof (endpoint-image theorem for monotone value maps, exactness of i64->f64 below 2^53, kernel-checked counterexamples beyond) + bit-exact correspondence of the rounding model + conversion oracle on the implementation",
+        "level_text": "Theorems (Props/C12.lean): mapping and re-ordering interval endpoints by any monotone or antitone value map covers the image of every member (any capacity); bool<->int round-trips and refuses other integers; `i64 as f64` (modelled bit-exactly, ties to even) is the identity below 2^53, hence Integer->Float is injective there; kernel-checked negations beyond (2^53 and 2^53+1 collide; float 2^63 converts to i64::MAX). The rounding model agrees with Rust on generated i64 values; all accepted conversions are swept by the oracle.",
+        "level_note": "Trusted: Lean kernel; harness. Modelled, not verified: text/bytes/date conversions and composite liftings (oracle only).",
+    },
 }
